@@ -53,6 +53,7 @@ macro_rules! wtypes {
             ($sim:expr, $sd:expr, $md:expr, $word:expr, $bytes:expr) => {{
                 let b: &[u8] = $bytes;
                 match b.len() {
+                    0 => $sim.run($sd.eeprom_write_dangerously($md, $word, ())),
                     $($n => { let mut a = [0u8; $n]; a.copy_from_slice(b); $sim.run($sd.eeprom_write_dangerously($md, $word, $name { d: a })) })*
                     _ => unreachable!(),
                 }
@@ -63,7 +64,7 @@ macro_rules! wtypes {
 
 wtypes!((B1, 1), (B2, 2), (B3, 3), (B4, 4), (B5, 5), (B7, 7), (B8, 8), (B15, 15), (B16, 16), (B33, 33), (B63, 63), (B64, 64));
 
-const LENS: [usize; 12] = [1, 2, 3, 4, 5, 7, 8, 15, 16, 33, 63, 64];
+const LENS: [usize; 13] = [0, 1, 2, 3, 4, 5, 7, 8, 15, 16, 33, 63, 64];
 
 fn run_case(sh: &mut Shard, case: u64, rng: &mut Rng, alias: u16) {
     let mut d = gen_desc(rng, &GenOpts { max_strings: 3, max_string_len: 10, max_pdos: 2, max_entries: 2, mailbox: false, nasty_strings: false, max_sms: 2 });
@@ -149,6 +150,8 @@ fn run_case(sh: &mut Shard, case: u64, rng: &mut Rng, alias: u16) {
     if busy_forever {
         sh.count("device_busy_forever");
         match r {
+            // an empty write needs no device access at all: nothing to wait for
+            Ok(Ok(())) if mode == 1 && wlen == 0 && changed.is_empty() && attempts == 0 => sh.count("empty_write_on_busy_device_ok"),
             Ok(Err(ref e)) if e.contains("Timeout(Eeprom)") => {
                 if elapsed > 100_000 {
                     sh.violation("C14:busy-device-late-timeout", format!("{elapsed} us"), scenario);
